@@ -868,3 +868,147 @@ Proof. split; [unfold in64, INT64_MIN, INT64_MAX; lia|discriminate]. Qed.
 Example ex_streaming_hyp :   (* a digest context satisfying the two streaming laws: the bytes seen so far *)
   (forall s a b : list N, (s ++ a) ++ b = s ++ (a ++ b)) /\ (forall s : list N, s ++ [] = s).
 Proof. split; intros; [now rewrite app_assoc|now rewrite app_nil_r]. Qed.
+
+(* ================================================================== 10. string.to_int(s, 10): exactly the decimal numerals *)
+Local Open Scope Z_scope.
+
+Lemma digit_in10_inv c d : digit_in 10 c = Some d -> is_dec c = true /\ d = Z.of_N c - 48.
+Proof.
+  unfold digit_in, digit_val, is_dec.
+  destruct ((48 <=? c) && (c <=? 57))%N eqn:E1.
+  - destruct (Z.of_N c - 48 <? 10); [|discriminate]. intros H. injection H as <-. now split.
+  - destruct ((97 <=? c) && (c <=? 122))%N eqn:E2.
+    + apply andb_true_iff in E2 as [H1 _]. apply N.leb_le in H1.
+      replace (Z.of_N c - 87 <? 10) with false by (symmetry; apply Z.ltb_ge; lia). discriminate.
+    + destruct ((65 <=? c) && (c <=? 90))%N eqn:E3; [|discriminate].
+      apply andb_true_iff in E3 as [H1 _]. apply N.leb_le in H1.
+      replace (Z.of_N c - 55 <? 10) with false by (symmetry; apply Z.ltb_ge; lia). discriminate.
+Qed.
+
+Lemma skip_space_split s : exists ws, s = ws ++ skip_space s /\ forallb is_space ws = true.
+Proof.
+  induction s as [|c r [ws [He Hw]]]; [exists []; now split|].
+  cbn [skip_space]. destruct (is_space c) eqn:E.
+  - exists (c :: ws). cbn [app forallb]. rewrite E, Hw. split; [now f_equal|reflexivity].
+  - exists []. now split.
+Qed.
+
+Lemma take_digits10_split s : forall acc n v m rest,
+  take_digits 10 s acc n = (v, m, rest) ->
+  exists ds, s = ds ++ rest /\ forallb is_dec ds = true /\ v = dec_value acc ds /\ m = (n + length ds)%nat.
+Proof.
+  induction s as [|c r IH]; intros acc n v m rest H; cbn [take_digits] in H.
+  - injection H as <- <- <-. exists []. cbn. now rewrite Nat.add_0_r.
+  - destruct (digit_in 10 c) as [d|] eqn:E.
+    + apply digit_in10_inv in E as [Hc ->].
+      apply IH in H as (ds & -> & Hd & -> & ->).
+      exists (c :: ds). cbn [app forallb length dec_value fold_left]. rewrite Hc, Hd.
+      repeat split. lia.
+    + injection H as <- <- <-. exists []. cbn. now rewrite Nat.add_0_r.
+Qed.
+
+Definition accepted (r : strtoll_res) (v : Z) : Prop :=
+  st_erange r = false /\ st_noconv r = false /\ st_rest r = [] /\ st_value r = v.
+
+Lemma string_to_int_accepted s base v :
+  string_to_int s base = Some v <-> accepted (strtoll (cstr s) base) v.
+Proof.
+  unfold string_to_int, accepted. destruct (strtoll (cstr s) base) as [val nc rest er]. cbn.
+  destruct er, nc, rest; split; intros H; try discriminate; try (now destruct H as (? & ? & ? & ?); discriminate).
+  - injection H as <-. now repeat split.
+  - destruct H as (_ & _ & _ & ->). reflexivity.
+Qed.
+
+Lemma body10_accepted neg cs s2 v :
+  accepted (strtoll_body neg cs s2 10) v <->
+  (forallb is_dec s2 = true /\ s2 <> [] /\ v = (if neg then - dec_value 0 s2 else dec_value 0 s2) /\ in64 v).
+Proof.
+  unfold strtoll_body. change ((10 =? 0) || (10 =? 16)) with false. change (10 =? 0) with false. cbn [andb].
+  destruct (take_digits 10 s2 0 0) as [[v0 n] rest] eqn:E.
+  pose proof (take_digits10_split s2 0 0%nat v0 n rest E) as (ds & Hs & Hd & Hv & Hn).
+  split.
+  - destruct n as [|n']; [intros (_ & H & _); discriminate|].
+    unfold strtoll_finish, accepted.
+    destruct ((if neg then - v0 else v0) <? INT64_MIN) eqn:E1; [intros (H & _); discriminate|].
+    destruct (INT64_MAX <? (if neg then - v0 else v0)) eqn:E2; [intros (H & _); discriminate|].
+    cbn. intros (_ & _ & Hr & Hval). subst rest. rewrite app_nil_r in Hs. subst ds.
+    apply Z.ltb_ge in E1, E2.
+    repeat split; try assumption.
+    + intros ->. cbn in Hn. lia.
+    + now subst.
+    + subst. unfold in64. lia.
+    + subst. unfold in64. lia.
+  - intros (Hdec & Hne & Hval & Hin).
+    rewrite (take_digits_dec s2 0 0 Hdec) in E. injection E as <- <- <-.
+    destruct s2 as [|c r]; [congruence|]. cbn [length Nat.add].
+    rewrite strtoll_finish_ok by (rewrite <- Hval; exact Hin).
+    unfold accepted. cbn. now repeat split.
+Qed.
+
+(* the numerals string.to_int(s, 10) accepts: white space, an optional sign, decimal digits, nothing else,
+   value within int64 and different from the undefined pattern; everything else is rejected *)
+Definition decimal_numeral (cs : list N) (v : Z) : Prop :=
+  exists ws sg ds, cs = ws ++ sg ++ ds /\ forallb is_space ws = true /\
+    (sg = [] \/ sg = [43%N] \/ sg = [45%N]) /\ ds <> [] /\ forallb is_dec ds = true /\
+    v = (if bytes_eqb sg [45%N] then - dec_value 0 ds else dec_value 0 ds).
+
+Lemma skip_space_app ws rest :
+  forallb is_space ws = true -> (match rest with c :: _ => is_space c = false | [] => True end) ->
+  skip_space (ws ++ rest) = rest.
+Proof.
+  induction ws as [|w r IH]; intros Hw Hr; cbn [app].
+  - destruct rest as [|c t]; [reflexivity|]. cbn [skip_space]. now rewrite Hr.
+  - cbn [forallb] in Hw. apply andb_true_iff in Hw as [H1 H2]. cbn [skip_space]. rewrite H1. now apply IH.
+Qed.
+
+Lemma dec_not_space c : is_dec c = true -> is_space c = false /\ (c =? 45)%N = false /\ (c =? 43)%N = false.
+Proof.
+  unfold is_dec, is_space. intros H. apply andb_true_iff in H as [H1 H2]. apply N.leb_le in H1, H2.
+  replace (c <=? 13)%N with false by (symmetry; apply N.leb_gt; lia).
+  replace (c =? 32)%N with false by (symmetry; apply N.eqb_neq; lia).
+  replace (c =? 45)%N with false by (symmetry; apply N.eqb_neq; lia).
+  replace (c =? 43)%N with false by (symmetry; apply N.eqb_neq; lia).
+  now rewrite andb_false_r.
+Qed.
+
+Lemma to_int_base10_exact_lemma s v :
+  mod_to_int_base s 10 = Some v <-> (decimal_numeral (cstr s) v /\ in64 v /\ v <> YR_UNDEFINED).
+Proof.
+  unfold mod_to_int_base. change (arg_def 10) with true. change (base_ok 10) with true. cbn [andb].
+  set (cs := cstr s).
+  split.
+  - destruct (string_to_int s 10) as [v'|] eqn:E; [|discriminate].
+    unfold ret_int. destruct (v' =? YR_UNDEFINED) eqn:Eu; [discriminate|]. intros H. injection H as ->.
+    apply Z.eqb_neq in Eu.
+    apply string_to_int_accepted in E. fold cs in E. unfold strtoll in E.
+    destruct (skip_space_split cs) as (ws & Hcs & Hws).
+    destruct (skip_space cs) as [|c r] eqn:Es.
+    + apply body10_accepted in E as (_ & Hne & _). congruence.
+    + destruct (c =? 45)%N eqn:E45; [|destruct (c =? 43)%N eqn:E43].
+      * apply N.eqb_eq in E45. subst c. apply body10_accepted in E as (Hd & Hne & Hv & Hin).
+        split; [|now split]. exists ws, [45%N], r. repeat split; try assumption. now right; right.
+      * apply N.eqb_eq in E43. subst c. apply body10_accepted in E as (Hd & Hne & Hv & Hin).
+        split; [|now split]. exists ws, [43%N], r. repeat split; try assumption. now right; left.
+      * apply body10_accepted in E as (Hd & Hne & Hv & Hin).
+        split; [|now split]. exists ws, [], (c :: r). repeat split; try assumption. now left.
+  - intros ((ws & sg & ds & Hcs & Hws & Hsg & Hne & Hd & Hv) & Hin & Hu).
+    assert (E : string_to_int s 10 = Some v).
+    { apply string_to_int_accepted. fold cs. unfold strtoll. rewrite Hcs.
+      destruct ds as [|d0 dr]; [congruence|].
+      pose proof Hd as Hd'. cbn [forallb] in Hd'. apply andb_true_iff in Hd' as [Hd0 _].
+      destruct (dec_not_space d0 Hd0) as (Hs0 & H45 & H43).
+      destruct Hsg as [ Hsg | [ Hsg | Hsg ] ]; subst sg; cbn [app].
+      - rewrite skip_space_app by assumption. rewrite H45, H43.
+        apply body10_accepted. cbn [bytes_eqb] in Hv. exact (conj Hd (conj Hne (conj Hv Hin))).
+      - rewrite skip_space_app by (try assumption; reflexivity). cbn [N.eqb Pos.eqb].
+        apply body10_accepted. cbn [bytes_eqb N.eqb Pos.eqb andb] in Hv. exact (conj Hd (conj Hne (conj Hv Hin))).
+      - rewrite skip_space_app by (try assumption; reflexivity). cbn [N.eqb Pos.eqb].
+        apply body10_accepted. cbn [bytes_eqb N.eqb Pos.eqb andb] in Hv. exact (conj Hd (conj Hne (conj Hv Hin))). }
+    rewrite E. unfold ret_int. apply Z.eqb_neq in Hu. now rewrite Hu.
+Qed.
+
+Example ex_decimal_numeral : decimal_numeral [32; 45; 52; 50]%N (-42) /\ in64 (-42) /\ -42 <> YR_UNDEFINED.
+Proof.
+  split; [|split; [unfold in64, INT64_MIN, INT64_MAX; lia|discriminate]].
+  exists [32%N], [45%N], [52; 50]%N. repeat split; try reflexivity; try discriminate. now right; right.
+Qed.
